@@ -243,6 +243,13 @@ def c05_cases(ctx, bases, rnd):
             for cfg in ({"conc": 1, "mode": "read", "bufs": [4 * maxb]}, {"conc": 1, "mode": "read", "bufs": [4096]}, {"conc": 1, "mode": "writeto"},
                         {"conc": 4, "mode": "read", "bufs": [4 * maxb]}, {"conc": 4, "mode": "writeto"}):
                 cases.append({"id": len(cases) + 1, "chunks": [{"bytes": frame}], "ops": [], "cfg": cfg, "tag": {"base": -1, "mut": "oversize-block"}})
+    # legacy frames with a size word of 0 (an LZ4 block is never empty: the reference decoder reports corrupted input):
+    # at the end, and between two blocks
+    txt = [ord(ch) for ch in "hello legacy zero word!"]
+    lblk = [0xF0, len(txt) - 15] + txt
+    for body in (le32(len(lblk)) + lblk + [0, 0, 0, 0], le32(len(lblk)) + lblk + [0, 0, 0, 0] + le32(len(lblk)) + lblk, [0, 0, 0, 0] + le32(len(lblk)) + lblk):
+        for cfg in ({"conc": 1, "mode": "read", "bufs": [4096]}, {"conc": 1, "mode": "writeto"}, {"conc": 4, "mode": "read", "bufs": [4096]}, {"conc": 4, "mode": "writeto"}):
+            cases.append({"id": len(cases) + 1, "chunks": [{"bytes": LEGACY_MAGIC + body}], "ops": [], "cfg": cfg, "tag": {"base": -1, "mut": "legacy-zero-word"}})
     # splices between two frames of different options
     for _ in range(30 if q else 300):
         x, y = rnd.sample(bases, 2)
@@ -427,6 +434,9 @@ def key_of(prop, c, rec):
         st = rec.get("ref", {}).get("status")
         if rec.get("ref", {}).get("legacy") and st == "block_too_big" and rec["outcome"] == "clean":
             return "C05:legacy:size-word-with-high-bit-read-as-stored-block"
+        blks = rec.get("ref", {}).get("blocks") or [{}]
+        if rec.get("ref", {}).get("legacy") and st == "bad_block" and rec["outcome"] == "clean" and blks[-1].get("size") == 0:
+            return "C05:legacy:zero-size-word-read-as-empty-block-or-end"
         return "C05:%s:%s:ref=%s:%s:conc=%s:outcome=%s" % ("legacy" if rec.get("ref", {}).get("legacy") else "frame", tag.get("mut"), st,
                                                         c["cfg"]["mode"], "1" if c["cfg"]["conc"] == 1 else ">1", rec["outcome"])
     return "C07:%s:conc=%s:%s:outcome=%s:err=%s:leaked=%s:alloc=%s" % (tag.get("what"), "1" if c["cfg"]["conc"] == 1 else ">1", c["cfg"]["mode"], rec["outcome"], rec["err"],
